@@ -249,6 +249,11 @@ func c17AbsCaptureTime(c *mc.Ctx) {
 			c.Failf("abscapturetime-decode-offset", "Unmarshal(%s) into receiver state %d (0 fresh, 1 used without offset, 2 used with offset, 3 same offset other timestamp, 4 same timestamp other offset, 5 same value): offset %v, want %v",
 				hx(b), prior, fmtOff(d.EstimatedCaptureClockOffset), fmtOff(off))
 		}
+		// the caller owns the decoded value: adjusting the offset in place (a relay adding its own)
+		// must not show in any later decode
+		if d.EstimatedCaptureClockOffset != nil && k%2 == 1 {
+			*d.EstimatedCaptureClockOffset += 0x0123456789
+		}
 	}
 	c.Ops(3125 * 2)
 	c.Cases(3124)
